@@ -82,25 +82,69 @@ func searchKey(o *occ) (string, string) {
 	return classKey(o), ""
 }
 
+// classExpect computes, from TLC's bindings, the positions of the occurrences of o's variable (want), the
+// as-built prediction (awant) with the deviations it relies on, and whether the case is UNSPECIFIED.
+func classExpect(tc *scCase, r *scRender, o *occ) (want, awant []string, devs map[string]bool, unspecified bool) {
+	devs = map[string]bool{}
+	gfiles := map[string]map[int]bool{}
+	for _, g := range tc.GDefs {
+		if gfiles[g.N] == nil {
+			gfiles[g.N] = map[int]bool{}
+		}
+		gfiles[g.N][g.File-1] = true
+	}
+	for i := range r.Occ {
+		oo := &r.Occ[i]
+		if classKey(oo) == classKey(o) {
+			want = append(want, occPos(r, oo))
+		}
+	}
+	sort.Strings(want)
+	if strings.HasPrefix(classKey(o), "G") && len(gdefIDs(tc, o.Name)) == 0 {
+		// a name that is defined nowhere: whether it counts as "a global of the workspace" is not settled
+		// by the statement (UNSPECIFIED); the request still exercises the server.
+		return want, nil, devs, true
+	}
+	qk, dev1 := queryKey(o)
+	if dev1 != "" {
+		devs[dev1] = true
+	}
+	if strings.HasPrefix(qk, "G") && len(gdefIDs(tc, o.Name)) == 0 {
+		return want, nil, devs, false // resolves to nothing
+	}
+	split := strings.HasPrefix(qk, "G") && len(gfiles[o.Name]) > 1
+	for i := range r.Occ {
+		oo := &r.Occ[i]
+		sk, dv := searchKey(oo)
+		if sk != qk {
+			if classKey(oo) == qk && dv != "" {
+				devs[dv] = true
+			}
+			continue
+		}
+		if dv != "" && classKey(oo) != qk {
+			devs[dv] = true
+		}
+		if split && oo.File != o.File {
+			devs["Dev_GlobalDefinedInTwoFilesSplit"] = true
+			continue
+		}
+		if oo.SelfW {
+			devs["Dev_GlobalWriteInsideOwnFunction"] = true
+			continue
+		}
+		awant = append(awant, occPos(r, oo))
+	}
+	sort.Strings(awant)
+	return
+}
+
 func c06Judge(c *Ctx, j *Job, res *proto.Result) {
 	d := j.Data.(*c06Data)
 	c.Rep.Eval(string(j.Raw))
 	if res.Crash != "" || res.Hang {
 		c.Rep.Violation(j.Raw, fmt.Sprintf("server died or hung (crash=%q hang=%v) on program:\n%s", res.Crash, res.Hang, progText(d.r)))
 		return
-	}
-	classes := map[string][]string{}
-	// files in which each global has a definition
-	gfiles := map[string]map[int]bool{}
-	for _, g := range d.tc.GDefs {
-		if gfiles[g.N] == nil {
-			gfiles[g.N] = map[int]bool{}
-		}
-		gfiles[g.N][g.File-1] = true
-	}
-	for i := range d.r.Occ {
-		o := &d.r.Occ[i]
-		classes[classKey(o)] = append(classes[classKey(o)], occPos(d.r, o))
 	}
 	for _, q := range d.q {
 		o := &d.r.Occ[q.occ]
@@ -121,11 +165,8 @@ func c06Judge(c *Ctx, j *Job, res *proto.Result) {
 		}
 		sort.Strings(got)
 		got = uniq(got)
-		want := append([]string{}, classes[classKey(o)]...)
-		sort.Strings(want)
-		if strings.HasPrefix(classKey(o), "G") && len(gdefIDs(d.tc, o.Name)) == 0 {
-			// a name that is defined nowhere: whether it counts as "a global of the workspace" is not settled
-			// by the statement (UNSPECIFIED); the request still exercises the server.
+		want, awant, devs, unspec := classExpect(d.tc, d.r, o)
+		if unspec {
 			continue
 		}
 		if bad == "" && strings.Join(got, " ") == strings.Join(want, " ") {
@@ -134,41 +175,6 @@ func c06Judge(c *Ctx, j *Job, res *proto.Result) {
 		it := d.tc.Items[o.Item]
 		desc := fmt.Sprintf("references on %q (%s of item %d %s/%s) at %s answers {%s}; the occurrences Lua binds to the same variable are {%s} %s\n%s",
 			o.Name, o.Role, o.Item, it.K, it.Fl, occPos(d.r, o), strings.Join(got, " "), strings.Join(want, " "), bad, progText(d.r))
-		// as-built prediction
-		qk, dev1 := queryKey(o)
-		devs := map[string]bool{}
-		if dev1 != "" {
-			devs[dev1] = true
-		}
-		var awant []string
-		if strings.HasPrefix(qk, "G") && len(gdefIDs(d.tc, o.Name)) == 0 {
-			awant = nil // resolves to nothing
-		} else {
-			split := strings.HasPrefix(qk, "G") && len(gfiles[o.Name]) > 1
-			for i := range d.r.Occ {
-				oo := &d.r.Occ[i]
-				sk, dv := searchKey(oo)
-				if sk != qk {
-					if classKey(oo) == qk && dv != "" {
-						devs[dv] = true
-					}
-					continue
-				}
-				if dv != "" && classKey(oo) != qk {
-					devs[dv] = true
-				}
-				if split && oo.File != o.File {
-					devs["Dev_GlobalDefinedInTwoFilesSplit"] = true
-					continue
-				}
-				if oo.SelfW {
-					devs["Dev_GlobalWriteInsideOwnFunction"] = true
-					continue
-				}
-				awant = append(awant, occPos(d.r, oo))
-			}
-		}
-		sort.Strings(awant)
 		if bad == "" && len(devs) > 0 && strings.Join(got, " ") == strings.Join(awant, " ") {
 			for dv := range devs {
 				if surveyMode {
